@@ -152,7 +152,13 @@ func vRunJob(t *testing.T, job *vJob, tmpRoot string) *vResult {
 	}
 	rc := &runCtx{t: t, job: job, tape: tape, dir: dir, res: res}
 	start := time.Now()
-	old := debug.SetGCPercent(-1)
+	gcPct := -1
+	if job.Params["slowdisk"] == "1" {
+		// megabytes queue up behind a slow disk for minutes of simulated time: with the collector off such a run
+		// alone outgrows the worker's address-space limit
+		gcPct = 100
+	}
+	old := debug.SetGCPercent(gcPct)
 	func() {
 		defer func() {
 			if r := recover(); r != nil {
